@@ -110,13 +110,14 @@ func c07required(op c07op) bool {
 // correlate-field values (as strings) of a record built for op
 func c07spec(op c07op, n uint32) aggfix.Spec {
 	sp := aggfix.Spec{Key: op.key, FlowType: op.flowType, Egress: op.egress, Ingress: op.ingress, From: op.from,
-		Start: 1000, End: 1000 + n, PktTot: uint64(n) * 10, PktDelta: 10, OctTot: uint64(n) * 1000, OctDelta: 1000, TCPState: "ESTABLISHED"}
+		Start: 900, End: 1000 + n, PktTot: uint64(n) * 10, PktDelta: 10, OctTot: uint64(n) * 1000, OctDelta: 1000, TCPState: "ESTABLISHED"}
 	switch op.from {
 	case aggfix.Src:
 		sp.SrcNS, sp.SrcNode = "ns-s", "node-s"
 	case aggfix.Dst:
 		sp.Layout = 1 // the destination node's exporter lists its fields in a different order
-		sp.DstNS, sp.DstNode, sp.SvcPort, sp.IngressPrio = "ns-d", "node-d", 8080, 7
+		sp.DstNS, sp.DstNode, sp.SvcPort, sp.IngressPrio = "ns-d", "node-d", 8080, -7 // (priorities may be negative)
+		sp.End = 950 + n // the two nodes' clocks and export cycles are independent: this one's end times lie before the other's
 		if !aggfix.Keys[op.key].V6 {
 			sp.ClusterIP = "10.96.0.10"
 		} else {
